@@ -37,7 +37,7 @@ from sim.common import (  # noqa: E402
 
 TIERS = {
     "quick": {"budget_s": 40, "max_runs": 200000, "det_samples": 24, "line_fraction": 0.4, "long_fraction": 0.0, "n_sweep": {"C12": 1500, "C13": 3000}},
-    "thorough": {"budget_s": 600, "max_runs": 5000000, "det_samples": 200, "line_fraction": 0.4, "long_fraction": 0.03, "n_sweep": {"C12": 10 ** 9, "C13": 10 ** 9}},
+    "thorough": {"budget_s": 900, "max_runs": 5000000, "det_samples": 200, "line_fraction": 0.4, "long_fraction": 0.03, "n_sweep": {"C12": 10 ** 9, "C13": 10 ** 9}},
 }
 
 
@@ -56,7 +56,7 @@ def build_cfg(repo, tier):
     }
     if tier == "thorough":
         cfg["ext_sweep"] = True
-        cfg["ext_sweep_from"] = 60000  # run indices 60000.. are the dense sweep (after sweep + first random stretch)
+        cfg["ext_sweep_from"] = None  # set per property in cmd_check: right after the interleaved core sweep
         cfg["long_corpus"] = [(n, workload.split_items(x)) for n, x in files if len(x) >= 8000]
         cfg["corpus"] += [(n, workload.split_items(x)) for n, x in files if 8000 <= len(x) < 40000]
     return cfg
@@ -338,6 +338,8 @@ def cmd_check(args):
     workers = int(args.workers or os.environ.get("VERIF_WORKERS") or min(16, os.cpu_count() or 4))
     repo = os.path.realpath(args.repo)
     cfg = build_cfg(repo, tier)
+    if cfg.get("ext_sweep"):
+        cfg["ext_sweep_from"] = 2 * sweep.n_cases(prop) + 2000
     t0 = time.time()
     print("check %s tier=%s VERIF_SEED=%d repo=%s workers=%d budget=%.0fs engine=%d" % (prop, tier, seed, repo, workers, budget, ENGINE_VERSION))
     sys.stdout.flush()
@@ -476,6 +478,8 @@ def cmd_digests(args):
     idxs = [int(x) for x in idxs.split(",") if x]
     repo = os.path.realpath(args.repo)
     cfg = build_cfg(repo, tier)
+    if cfg.get("ext_sweep"):
+        cfg["ext_sweep_from"] = 2 * sweep.n_cases(prop) + 2000
     pool = make_pool(repo, cfg, int(args.workers or 3), isolation=args.isolation or "fork")
     out = {}
     for s in pool.map(runner.one_run, [(prop, seed, i) for i in idxs]):
